@@ -176,9 +176,29 @@ func (s *Sys) whoisFor(q HReq, r *rand.Rand) (*apitype.WhoIsResponse, error) {
 
 func strconvQuote(s string) string { b, _ := json.Marshal(s); return string(b) }
 
+// httpObs is everything observable about one request sent to the real mux.
+type httpObs struct {
+	q      HReq
+	status int
+	ctype  string
+	rb     []byte
+	lines  []AuditRec
+	out    Outcome
+	desc   string
+	bad    []string // what is wrong whatever the specification expects (a garbled audit line, a panic, secret bytes in a refusal)
+	st     []SecState
+	notes  []string
+	probe  bool
+}
+
 // execHTTP sends one representative of the edge's request to the real mux and
 // compares everything observable with the edge.
 func execHTTP(sys *Sys, g *Graph, e Edge, probe bool, r *rand.Rand) ([]string, Outcome) {
+	o := observeHTTP(sys, g, e, probe, r)
+	return judgeHTTP(sys, g, e, o)
+}
+
+func observeHTTP(sys *Sys, g *Graph, e Edge, probe bool, r *rand.Rand) *httpObs {
 	q := *e.Req
 	var bad []string
 	add := func(f string, a ...any) { bad = append(bad, fmt.Sprintf(f, a...)) }
@@ -273,6 +293,16 @@ func execHTTP(sys *Sys, g *Graph, e Edge, probe bool, r *rand.Rand) ([]string, O
 			}
 		}
 	}
+	st, notes := sys.Observe(probe)
+	return &httpObs{q: q, status: res.StatusCode, ctype: res.Header.Get("Content-Type"), rb: rb, lines: lines, out: out, desc: desc, bad: bad, st: st, notes: notes, probe: probe}
+}
+
+// judgeHTTP compares an observation with what one edge of the specification expects.
+func judgeHTTP(sys *Sys, g *Graph, e Edge, o *httpObs) ([]string, Outcome) {
+	bad := append([]string(nil), o.bad...)
+	add := func(f string, a ...any) { bad = append(bad, fmt.Sprintf(f, a...)) }
+	q, rb, lines, out, desc, probe := o.q, o.rb, o.lines, o.out, o.desc, o.probe
+	res := struct{ StatusCode int }{o.status}
 	h := e.HTTP
 	if h.Gate != "pass" {
 		if res.StatusCode >= 200 && res.StatusCode <= 299 {
@@ -343,8 +373,8 @@ func execHTTP(sys *Sys, g *Graph, e Edge, probe bool, r *rand.Rand) ([]string, O
 					out.List = append(out.List, *infoRec(sys.D, in))
 				}
 			}
-			if res.Header.Get("Content-Type") != "application/json" {
-				add("200 reply has Content-Type %q", res.Header.Get("Content-Type"))
+			if o.ctype != "application/json" {
+				add("200 reply has Content-Type %q", o.ctype)
 			}
 		}
 		if q.Path == "dash" && res.StatusCode == 200 {
@@ -379,9 +409,8 @@ func execHTTP(sys *Sys, g *Graph, e Edge, probe bool, r *rand.Rand) ([]string, O
 			add("%s", m)
 		}
 	}
-	st, notes := sys.Observe(probe)
-	bad = append(bad, notes...)
-	bad = append(bad, CompareState(g.States[e.T], st, probe)...)
+	bad = append(bad, o.notes...)
+	bad = append(bad, CompareState(g.States[e.T], o.st, probe)...)
 	for i := range bad {
 		bad[i] = bad[i] + " [" + desc + "]"
 		break
